@@ -354,7 +354,9 @@ B_LIKELY = B('likely', 'LanguageIdentifier::maximize / minimize (the wrappers, r
                       'flag == value changed, variants untouched, given subtags kept, all three filled, idempotence, minimize maximizes back (laws that need no reference data)')
 PROPS['C07']['bounded'] = [B_LIKELY]
 PROPS['C08']['bounded'] = [B_LIKELY]
-PROPS['C12']['bounded'] = [B_MUT, B_RT]
+B_ORD = B('ord', 'Eq / Ord / Hash of Locale (and of its id) on pairs from a pool of ~3800 locales (10 identifiers x 8 -t- x 12 -u- x 4 -x- shapes): == iff canonical strings equal, '
+                  'cmp Equal iff ==, antisymmetry, partial_cmp, equal => equal hash, identifier decides first; transitivity on a sample of triples')
+PROPS['C12']['bounded'] = [B_MUT, B_RT, B_ORD]
 PROPS['C10']['bounded'] = [B_MUT]
 PROPS['C04']['bounded'] = [B_RT, B_MUT]
 PROPS['C10']['standin'] = ['locale']
